@@ -6,7 +6,7 @@ EXTENDS QCache
 CONSTANTS MaxTtl
 VARIABLES orig    \* key -> the packet the entry was made from (ghost)
 mvars == <<cvars, orig>>
-K == Key("n", 1, 1, 0)
+K == Key("n", 1, 1, 1, 0)
 Packets == { [qid |-> 1, rcode |-> rc, tc |-> tc, ttls |-> ts, xttls |-> <<>>, soa |-> soa, soattl |-> 30, soamin |-> 6]
              : rc \in {0, 2, 3}, tc \in {0, 1}, ts \in {<<>>, <<0>>, <<5>>, <<60, 4>>, <<100000>>}, soa \in {0, 1} }
 MInit == /\ ccfg = [qcache |-> MaxTtl, dns0x20 |-> 0] /\ cnow = 0 /\ cache = <<>> /\ cq = <<>> /\ csrv = {1} /\ orig = <<>>
